@@ -32,6 +32,7 @@ type c09Scenario struct {
 	Server  string      `json:"server"` // fast, slow, bursty
 	Pattern []int       `json:"pattern"`
 	Procs   int         `json:"gomaxprocs"`
+	StallMS int         `json:"stall_ms"` // the server stops reading for this long (Config.Timeout is 20 ms then); 0 never
 }
 
 func genC09(t *rapid.T) *c09Scenario {
@@ -50,6 +51,9 @@ func genC09(t *rapid.T) *c09Scenario {
 			s.PayLens = append(s.PayLens, rapid.SampledFrom([]int{0, 1, 10, 80, 400, 505, 520, 1000, 5000}).Draw(t, "paylen"))
 		}
 		sc.Senders = append(sc.Senders, s)
+	}
+	if rapid.IntRange(0, 4).Draw(t, "stall") == 0 {
+		sc.StallMS = rapid.SampledFrom([]int{30, 60, 120}).Draw(t, "stall_ms")
 	}
 	for k := rapid.IntRange(1, 30).Draw(t, "npattern"); k > 0; k-- {
 		sc.Pattern = append(sc.Pattern, rapid.IntRange(1, 40).Draw(t, "allow"))
@@ -86,7 +90,11 @@ func c09Line(g, i int, s *c09Sender) (wire string, call func(c *client.Conn)) {
 func runC09(sc *c09Scenario) *Violation {
 	old := runtime.GOMAXPROCS(sc.Procs)
 	defer runtime.GOMAXPROCS(old)
-	tc := newTestClient(cliOpts{Flood: true})
+	tc := newTestClient(cliOpts{Flood: true, Configure: func(cfg *client.Config) {
+		if sc.StallMS > 0 {
+			cfg.Timeout = 20 * time.Millisecond // "the duration before a connection timeout is triggered"
+		}
+	}})
 	defer tc.shutdown()
 	var wg sync.WaitGroup
 	emit := func(g int) {
@@ -115,8 +123,21 @@ func runC09(sc *c09Scenario) *Violation {
 		return violationf("C09", "registration never completed")
 	}
 	base := len(conn.Written())
+	conn.PartialWrites(true)
 	if sc.Server != "fast" {
 		conn.Gate(true)
+	}
+	if sc.StallMS > 0 {
+		// a stall longer than Config.Timeout while lines are outstanding; the connection must stay up and
+		// every line still arrive exactly once
+		go func() {
+			time.Sleep(300 * time.Microsecond)
+			conn.Gate(true)
+			time.Sleep(time.Duration(sc.StallMS) * time.Millisecond)
+			if sc.Server == "fast" {
+				conn.Gate(false)
+			}
+		}()
 	}
 	stop := make(chan struct{})
 	if sc.Server != "fast" {
